@@ -231,6 +231,28 @@ pub fn run(tier: Tier) -> i32 {
         distinct.fetch_add(1, Ordering::Relaxed);
     });
 
+    // ---- a''. shapes with many constructed elements: wide, comb-like and deep (the parser's
+    // nesting limit is 64 levels; chains up to that depth must round-trip)
+    let mut shapes: Vec<Tlv> = vec![];
+    for n in (0..=140usize).chain([255, 256, 300]) {
+        shapes.push(Tlv::seq((0..n).map(|_| Tlv::seq(vec![])).collect()));
+        shapes.push(Tlv::seq((0..n).map(|k| Tlv::seq(vec![Tlv::int(k as i64)])).collect()));
+        shapes.push(Tlv::cons(1, 4, vec![Tlv::octets(b"cn=x".to_vec()), Tlv::seq((0..n).map(|k| Tlv::seq(vec![Tlv::octets(vec![k as u8]), Tlv::set(vec![Tlv::octets(vec![1])])])).collect())]));
+    }
+    for depth in 1..=63usize {
+        // a chain of `depth` constructed elements with a leaf, plus a sibling chain next to it
+        let mut t = Tlv::int(7);
+        for d in 0..depth {
+            t = Tlv::cons((d % 3) as u8, (d % 31) as u32, vec![t]);
+        }
+        shapes.push(t.clone());
+        shapes.push(Tlv::seq(vec![t.clone(), t]));
+    }
+    for t in &shapes {
+        check_tree(&rep, t, &evals);
+        distinct.fetch_add(1, Ordering::Relaxed);
+    }
+
     // ---- a'. typed wrappers
     let mut wrappers = 0u64;
     for c in 0..4u8 {
